@@ -1,8 +1,9 @@
-\* Schedule graph for memory::State: the same scripts, two readers with 2 calls each.
+\* Schedule graph for memory::State: the 3-call scripts, two readers with 2 calls each.
 SPECIFICATION Spec
 CONSTANTS
   Readers = {1, 2}
-  WScripts <- Scripts
+  WScripts <- ScriptsG
+  Mutant = "none"
   ROps = 2
-INVARIANTS SeqsOk SingleContext RemovalEffective NoLostChannel NoUseAfterFree FreedOnce NoEarlyFree
+INVARIANTS SeqsOk SingleContext RemovalEffective NoLostChannel NoResurrection NoUseAfterFree FreedOnce NoEarlyFree
 CHECK_DEADLOCK FALSE
